@@ -64,6 +64,8 @@ def sites_in(body, crate=None):
                 site["discharged"] = discharged(body, site)
                 if not site["discharged"] and crate is not None and fn_matches(t, r"quote::__private::mk_ident$"):
                     site["discharged"] = discharged_with_helpers(crate, body, site)
+                if not site["discharged"] and crate is not None and fn_matches(t, r"quote::__private::mk_ident$", r"proc_macro2::Ident::new$"):
+                    site["discharged"] = discharged_by_callers(crate, body, site)
                 out.append(site)
         elif t["k"] == "assert":
             md = t.get("msg_dbg", "")
@@ -443,6 +445,32 @@ def discharged(body, site):
         return "index is position(..)/len() of the collection it is applied to"
     if constant_index_guarded(body, t, site["block"]) or switch_on_len_guarded(body, t, site["block"]):
         return "constant index behind a dominating length test on the same place"
+    return None
+
+
+def discharged_by_callers(crate, body, site):
+    """`Ident::new(name, span)` / `format_ident!("{name}")` on a *parameter* of a private helper: discharged when every call of
+    that helper in the crate passes a string literal that is an identifier"""
+    t = body.term(site["block"])
+    if not fn_matches(t, r"proc_macro2::Ident::new$", r"quote::__private::mk_ident$") or not t["args"]:
+        return None
+    desc, root = operand_origin_ex(body, t["args"][0])
+    if not desc.startswith("param") or root is None or not (1 <= root <= body.raw["arg_count"]):
+        return None
+    texts = []
+    for cb in crate.bodies:
+        for blk, ct in cb.calls():
+            if cb.is_cleanup(blk) or not any(hb.path == body.path for hb in crate.call_targets(cb, ct, ())):
+                continue
+            if root - 1 >= len(ct["args"]):
+                return None
+            a = ct["args"][root - 1]
+            cs = [op_const(a)] if op_const(a) is not None else [o.get("c") for o in M.origins(cb, op_local(a))] if op_local(a) is not None else []
+            if not cs or not all(c and c.get("str") is not None for c in cs):
+                return None
+            texts += [c["str"] for c in cs]
+    if texts and all(re.match(r"^[A-Za-z_][A-Za-z0-9_]*$", x) for x in texts):
+        return "identifier text is a parameter; every caller passes one of the literals %s" % sorted(set(texts))
     return None
 
 
